@@ -25,7 +25,7 @@ func recvMsg() *packettypes.MsgRecvPacket {
 //   delivered  - the callback ran once, its effects are committed once, the ack carries the contract's result
 //   refunded   - an error acknowledgement, and then NO effect of the callback is left committed
 func VerifC03RecvOutcome() {
-	w := newXWorld(2)
+	w := newXWorld(2 + rt.Tier())
 	msg := recvMsg()
 	var p packettypes.Packet
 	_ = p.ABIDecode(msg.Packet)
@@ -73,7 +73,7 @@ func VerifC03RecvOutcome() {
 // VerifC03AckOutcome: on the source, the acknowledgement's code alone decides delivered (status 1) or refunded (status 2),
 // exactly one of them, followed by one fee payment and one callback.
 func VerifC03AckOutcome() {
-	w := newXWorld(2)
+	w := newXWorld(2 + rt.Tier())
 	msg := &packettypes.MsgAcknowledgement{Packet: rt.Bytes("packetBytes"), Acknowledgement: rt.Bytes("ackBytes"), ProofAcked: rt.Bytes("proof"),
 		ProofHeight: clienttypes.Height{RevisionNumber: rt.U64("rev"), RevisionHeight: rt.U64("height")}, Signer: rt.Str("signer")}
 	var p packettypes.Packet
